@@ -29,6 +29,31 @@ fn text(e: &Exp) -> String {
     }
 }
 
+/// the same tree spelled with only the parentheses the DOCUMENTED grammar needs: implies (right-assoc) and iff (left-assoc)
+/// share the loosest level, then or, xor, and, then + -, then * /, unary minus and not bind tightest; equal levels group left
+fn level(op: &BinOp) -> (u8, bool) { match op { BinOp::Implies => (1, false), BinOp::Iff => (1, true), BinOp::Or => (2, true), BinOp::Xor => (3, true), BinOp::And => (4, true), BinOp::Add | BinOp::Sub => (5, true), BinOp::Mul | BinOp::Div => (6, true) } }
+fn text_min(e: &Exp, parent: Option<(&BinOp, bool)>) -> String {
+    let wrap = |s: String, need: bool| if need { format!("({})", s) } else { s };
+    match e {
+        Exp::BinOp(op, a, c) => {
+            let (lv, left) = level(op);
+            let sym = match op { BinOp::Add => "+", BinOp::Sub => "-", BinOp::Mul => "*", BinOp::Div => "/", BinOp::And => "and", BinOp::Or => "or", BinOp::Xor => "xor", BinOp::Implies => "implies", BinOp::Iff => "iff" };
+            let body = format!("{} {} {}", text_min(a, Some((op, true))), sym, text_min(c, Some((op, false))));
+            // parentheses unless the child binds tighter, or is the SAME operator on the side its associativity groups to
+            let need = match parent { None => false, Some((pop, on_left)) => { let (plv, pleft) = level(pop);
+                lv < plv || (lv == plv && !(std::mem::discriminant(pop) == std::mem::discriminant(op) && on_left == pleft)) } };
+            wrap(body, need)
+        }
+        Exp::UnOp(UnOp::Neg, x) => format!("-{}", match &**x { Exp::Variable(_) => text_min(x, None), _ => format!("({})", text_min(x, None)) }),
+        Exp::UnOp(UnOp::Not, x) => format!("not {}", match &**x { Exp::Variable(_) => text_min(x, None), _ => format!("({})", text_min(x, None)) }),
+        Exp::Not(x) => format!("not {}", match &**x { Exp::Variable(_) => text_min(x, None), _ => format!("({})", text_min(x, None)) }),
+        Exp::Abs(x) => format!("abs{{ {} }}", text_min(x, None)),
+        Exp::Min(l) => format!("min{{ {} }}", l.iter().map(|x| text_min(x, None)).collect::<Vec<_>>().join(", ")),
+        Exp::Max(l) => format!("max{{ {} }}", l.iter().map(|x| text_min(x, None)).collect::<Vec<_>>().join(", ")),
+        other => text(other),
+    }
+}
+
 struct G;
 impl G {
     fn affine(r: &mut Rng, ints: &[String]) -> Exp {
@@ -45,7 +70,11 @@ impl G {
     }
     fn arith(r: &mut Rng, ints: &[String], bools: &[String], depth: usize) -> Exp {
         if depth == 0 || r.chance(1, 2) { return Self::affine(r, ints); }
-        match r.below(7) {
+        match r.below(10) {
+            7 => { let inner = match r.below(4) { 0 => Exp::Abs(b(Self::affine(r, ints))), 1 => Exp::Max(vec![Self::affine(r, ints), Self::affine(r, ints)]), 2 => Exp::Min(vec![Self::affine(r, ints), Self::affine(r, ints)]), _ => Self::arith(r, ints, bools, depth - 1) };
+                   bin(BinOp::Div, inner, num(*r.pick(&[2.0, -2.0, -1.0, 4.0, -4.0, -2.0]))) }
+            8 => { let k = |r: &mut Rng| num(*r.pick(&[-1.0, -3.0, -2.0, 2.0, 0.0, 1.0])); bin(BinOp::Add, Self::affine(r, ints), if r.chance(1, 2) { Exp::Max(vec![k(r), k(r)]) } else { Exp::Min(vec![k(r), k(r), k(r)]) }) }
+            9 => bin(BinOp::Sub, Self::arith(r, ints, bools, depth - 1), Self::affine(r, ints)),
             0 | 1 => Exp::Abs(b(Self::arith(r, ints, bools, depth - 1))),
             2 => Exp::Max(vec![Self::arith(r, ints, bools, depth - 1), Self::arith(r, ints, bools, depth - 1)]),
             3 => Exp::Min(vec![Self::arith(r, ints, bools, depth - 1), Self::arith(r, ints, bools, depth - 1)]),
@@ -57,7 +86,12 @@ impl G {
     fn logic(r: &mut Rng, bools: &[String], depth: usize) -> Exp {
         if depth == 0 || r.chance(1, 3) { return var(&bools[r.below(bools.len())]); }
         let d = depth - 1;
-        match r.below(7) {
+        let leaf = |r: &mut Rng| { let v = var(&bools[r.below(bools.len())]); if r.chance(1, 4) { Exp::UnOp(UnOp::Not, b(v)) } else { v } };
+        match r.below(10) {
+            // chains whose grouping comes from associativity alone when printed without parentheses
+            7 => Exp::BinOp(BinOp::Implies, b(leaf(r)), b(Exp::BinOp(BinOp::Implies, b(leaf(r)), b(leaf(r))))),
+            8 => Exp::BinOp(BinOp::Iff, b(Exp::BinOp(BinOp::Iff, b(leaf(r)), b(leaf(r)))), b(leaf(r))),
+            9 => Exp::BinOp(BinOp::Or, b(Exp::BinOp(BinOp::And, b(leaf(r)), b(leaf(r)))), b(Exp::BinOp(BinOp::Xor, b(leaf(r)), b(leaf(r))))),
             0 => Exp::BinOp(BinOp::And, b(Self::logic(r, bools, d)), b(Self::logic(r, bools, d))),
             1 => Exp::BinOp(BinOp::Or, b(Self::logic(r, bools, d)), b(Self::logic(r, bools, d))),
             2 => Exp::UnOp(UnOp::Not, b(Self::logic(r, bools, d))),
@@ -86,7 +120,7 @@ fn gen_text(r: &mut Rng, i: usize) -> Value {
         cs.push(Constraint::new(G::arith(r, &ints, &bools, 2), cmp, rhs, name));
     }
     let ot = match r.below(5) { 0 | 1 => OptimizationType::Min, 2 | 3 => OptimizationType::Max, _ => OptimizationType::Satisfy };
-    let obj = if matches!(ot, OptimizationType::Satisfy) { num(0.0) } else { G::arith(r, &ints, &bools, 1) };
+    let obj = if matches!(ot, OptimizationType::Satisfy) { num(0.0) } else { let d = 1 + r.below(2); G::arith(r, &ints, &bools, d) };
     // every declared variable must occur in the text (the transformer rejects unused declarations otherwise? no - but keeps usage marks honest)
     let m = build_model(ot.clone(), obj.clone(), cs.clone(), &decls);
     let mut used = Vec::new();
@@ -95,6 +129,8 @@ fn gen_text(r: &mut Rng, i: usize) -> Value {
     let decls2: Vec<VarDecl> = decls.iter().map(|d| VarDecl { name: d.name.clone(), ty: d.ty, used: used.contains(&d.name) }).collect();
     let m2 = build_model(ot.clone(), obj.clone(), cs.clone(), &decls2);
     let _ = m;
+    let minimal = r.chance(1, 2);
+    let text = |e: &Exp| if minimal { text_min(e, None) } else { text(e) };
     let head = match ot { OptimizationType::Min => format!("min {}", text(&obj)), OptimizationType::Max => format!("max {}", text(&obj)), OptimizationType::Satisfy => "solve".to_string() };
     let body: Vec<String> = cs.iter().map(|c| {
         let n = if c.name().is_empty() { String::new() } else { format!("{}: ", c.name()) };
